@@ -17,6 +17,7 @@ CLASSES = ["Gaussian", "Exponential", "Matern", "Stable", "Rational", "Cubic", "
            "HyperSpherical", "SuperSpherical", "JBessel", "Integral", "TPLGaussian", "TPLExponential", "TPLStable", "TPLSimple"]
 ERR_NAMES = {0: "ok", 1: "unknown-parameter", 2: "sill-out-of-bounds", 3: "var>sill", 4: "nugget>sill", 5: "arg-out-of-bounds",
              6: "anis<=0", 7: "latlon-directional", 8: "other"}
+SHAPE_OK = ("Stable", "Rational", "Matern", "Integral", "SuperSpherical")
 ULP_STATE = 2      # model and implementation execute the same IEEE operations (+,-,/,* and the shared var_factor)
 ULP_VARFAC = 4     # var = (v / f) * f : two roundings; dict['var'] (=popt) vs model.var for models with var_factor != 1
 
@@ -132,7 +133,7 @@ def gen_case(rng, tier, force=None):
     if isdir:
         y = np.array([tm.vario_axis(x, axis=i) for i in range(dim)])
     elif latlon:
-        y = tm.vario_yadrenko(x / geo_scale)
+        y = tm.vario_yadrenko(x)
     else:
         y = tm.variogram(x)
     noise = float(rng.choice([0.0, 0.02, 0.1]))
@@ -244,6 +245,10 @@ def case_xy(case):
 
 
 # ------------------------------------------------------------------ implementation run (curve_fit wrapped in-process)
+class NothingToFit(Exception):
+    pass
+
+
 def snap(m):
     return dict(varraw=float(m._var), var=float(m.var), len=float(m.len_scale), nug=float(m.nugget),
                 opt=[float(getattr(m, o)) for o in m.opt_arg], anis=[float(a) for a in np.atleast_1d(m.anis)])
@@ -280,6 +285,10 @@ def run_impl(case):
         rec.update(called=True, p0=[float(v) for v in kwargs["p0"]], lo=[float(v) for v in kwargs["bounds"][0]],
                    hi=[float(v) for v in kwargs["bounds"][1]], mean_x=float(np.mean(kwargs["xdata"])),
                    mean_y=float(np.mean(kwargs["ydata"])), sigma=kwargs.get("sigma"))
+        if len(rec["p0"]) == 0:
+            # every parameter is fixed / deselected / determined by the sill: nothing is handed to the optimiser
+            # (scipy fails with a TypeError on the empty start vector); outside the property's quantifier
+            raise NothingToFit()
         popt, pcov = orig(**kw2)
         rec["popt"] = [float(v) for v in popt]
         return popt, pcov
@@ -292,6 +301,9 @@ def run_impl(case):
     except ValueError as e:
         out["err"] = err_code(e)
         out["msg"] = str(e)[:200]
+    except NothingToFit:
+        out["err"] = 8
+        out["msg"] = "nothing to fit"
     except RuntimeError as e:       # curve_fit: optimal parameters not found (max_nfev) -- documented scipy behaviour
         out["err"] = 8
         out["msg"] = "RuntimeError: " + str(e)[:150]
@@ -587,16 +599,24 @@ def recovery_cases(rng, tier):
             if kind == "dir":
                 y = np.array([tm.vario_axis(x, axis=i) for i in range(dim)])
             elif latlon:
-                y = tm.vario_yadrenko(x / geo)
+                y = tm.vario_yadrenko(x)
             else:
                 y = tm.variogram(x)
             start = {k: (float(v * rng.uniform(0.9, 1.1)) if k != "anis" else [float(a * rng.uniform(0.9, 1.1)) for a in v])
                      for k, v in truth.items()}
-            # shape parameters (nu, alpha, hurst, len_low) are held at the truth: jointly with len_scale they are
-            # ill-conditioned (flat valleys), which says nothing about the fitting code
-            sel = [[k, False] for k in opt]
-            for k in opt:
-                start[k] = truth[k]
+            # shape parameters: identifiable ones (Stable/Rational alpha, Matern/Integral/SuperSpherical nu) are fitted in
+            # half of the cases (observed recovery <= 1e-6); HyperSpherical's nu does not change the curve for fixed dim
+            # (unidentifiable) and the TPL pair (hurst, len_low) has flat valleys with len_scale: those are held at the truth
+            fit_shape = cls in SHAPE_OK and rng.random() < 0.5
+            if fit_shape:
+                sel = []
+                for k in opt:
+                    start[k] = float(truth[k] * rng.uniform(0.95, 1.05))
+            else:
+                sel = [[k, False] for k in opt]
+                for k in opt:
+                    start[k] = truth[k]
+            case["fit_shape"] = fit_shape
             case.update(start=start, x=[C.fhex(v) for v in x], y=[C.fhex(v) for v in np.asarray(y).ravel()], yshape=list(np.shape(y)),
                         kwargs=dict(select=sel, init_guess="current", loss=str(rng.choice(["soft_l1", "linear"])),
                                     method="trf", tight=True))
@@ -616,7 +636,7 @@ def run_recovery(ctx, case):
     bad = []
     if not impl["r2"] > 1 - 1e-6:
         bad.append("r2 = %r" % impl["r2"])
-    for k in ("var", "len_scale", "nugget"):
+    for k in ["var", "len_scale", "nugget"] + ([kk for kk in t if kk not in ("var", "len_scale", "nugget", "anis")] if case.get("fit_shape") else []):
         if abs(float(impl["dict"][k]) - t[k]) > 1e-4 * abs(t[k]):
             bad.append("%s fitted %r truth %r" % (k, float(impl["dict"][k]), t[k]))
     if case["isdir"]:
@@ -669,10 +689,13 @@ def oracle_factory(state):
         if code != 100:
             raise RuntimeError("unexpected oracle code %d" % code)
         m = state["copy"]
-        object.__setattr__(m, "_len_scale", float(args[0]))
+        object.__setattr__(m, "_len_scale", np.float64(args[0]))      # numpy scalars, as in the implementation (x/0 -> nan)
         for nme, v in zip(m.opt_arg, args[1:]):
-            object.__setattr__(m, nme, float(v))
-        return float(m.var_factor())
+            object.__setattr__(m, nme, np.float64(v))
+        try:
+            return float(m.var_factor())
+        except ZeroDivisionError:      # hurst = 0 on a TPL model: 0/0 in the implementation's formula
+            return float("nan")
     return oracle
 
 
@@ -701,8 +724,11 @@ def run(ctx):
         "call that raises",
         "the len_scale setter's re-normalisation of anis (identity on well-formed states) is part of C14, compared by execution here",
     ]
+    import time
+    t0 = time.time()
     ok = ctx.proofs("props/C10.v")
     okd, out = C.build_driver("c10")
+    C.log("[C10] proofs + driver build: %.1fs" % (time.time() - t0))
     drv = None
     ostate = {}
     if okd:
@@ -737,6 +763,7 @@ def run(ctx):
             ostate["copy"] = build_model(case, "start")
             tb = run_case(ctx, drv, case, stage="pattern")
             tie_broken += tb
+        C.log("[C10] correspondence + property probes on %d generated configurations: %.1fs" % (n_cases, time.time() - t0))
         # ---- recovery probes
         for case in recovery_cases(rng, ctx.tier):
             run_recovery(ctx, case)
